@@ -6,6 +6,9 @@ Family B  digital-line scalers: types u8/u16/u32 x widths x EVERY bit offset x r
 Family T  truncation: every cut inside the last segment of two-buffer layouts with different widths (whole rows only)
 Family C  2-3 channels, 1-2 scalers each, 1-2 raw buffers of different widths and lengths: every placement of the
           second scaler, every ordered pair of scaler types from a subset, chunks {1,2,3}, both byte orders
+Family D  one channel whose scalers live in several raw buffers listed in non-adjacent order
+Family E  a later segment restates the indexes (same, scaler records permuted, other row count) or switches channels to
+          'no data' in 1-2 buffer layouts, carried-over or new object list, followed by a metadata-less segment
 Oracle: bytes at chunk_base + buffer_base + row*width + offset of a fixed non-repeating filler pattern (phase rotated by
 VERIF_SEED), decoded independently; lazy windows and chunk streams must equal slices of the eager result.
 """
@@ -117,6 +120,39 @@ def fam_d():
                     sb = [(1, bi, widths[bi] - 1, 0, 0)]
                     objs.append(("/'g'/'b%d'" % bi, F.daqmx_enc(3, sb, widths), nscales(sb)))
                 yield ('D', [G.seg(objs, chunks=chunks, big=big), G.seg([], meta=False, chunks=2, big=big)])
+
+
+def fam_e():
+    """a later segment restates / toggles the indexes of a multi-scaler, 1-2 buffer layout: the same index again, the scaler
+    records listed in another order, another number of rows, one channel switched to 'no data' (object list carried over or
+    new), then a metadata-less repeat"""
+    for widths, na, nb in (([7], 2, 2), ([7, 5], 2, 3), ([7, 5], 3, 2)):
+        for big in (False, True):
+            sa = [(3, 0, 0, 0, 0), (5, 0, 2, 0, 1)]
+            sb = [(3, len(widths) - 1, 1, 0, 0)]
+            sc3 = [(1, 0, 6, 0, 0)]
+            ea, eb, ec = (A, F.daqmx_enc(na, sa, widths), nscales(sa)), (B, F.daqmx_enc(nb, sb, widths), nscales(sb)), \
+                (C, F.daqmx_enc(na, sc3, widths), nscales(sc3))
+            first = G.seg([ea, eb, ec], chunks=2, big=big)
+            tail = G.seg([], meta=False, chunks=2, big=big)
+            ea_perm = (A, F.daqmx_enc(na, sa[::-1], widths))
+            seconds = {
+                'restated': [ea[:2], eb[:2], ec[:2]], 'permuted': [ea_perm, eb[:2], ec[:2]],
+                'rows+1': [(A, F.daqmx_enc(na + 1, sa, widths)), (B, F.daqmx_enc(nb + 1, sb, widths)), (C, F.daqmx_enc(na + 1, sc3, widths))],
+                'permuted-only': [ea_perm],
+                'A-nodata': [(A, ['NODATA'])], 'B-nodata': [(B, ['NODATA'])], 'C-nodata': [(C, ['NODATA'])],
+                'A,C-nodata': [(A, ['NODATA']), (C, ['NODATA'])],
+            }
+            for name, objs in seconds.items():
+                for newlist in (False, True):
+                    if newlist and name.endswith('nodata'):
+                        # a new object list has to name the channels that keep their data
+                        gone = set(o[0] for o in objs)
+                        objs2 = [(o[0], ['SAME']) for o in (ea, eb, ec) if o[0] not in gone] + list(objs)
+                    else:
+                        objs2 = list(objs)
+                    for chunks in (1, 2):
+                        yield ('E', [first, G.seg(objs2, newlist=newlist, chunks=chunks, big=big), tail])
 
 
 def fam_t():
@@ -247,7 +283,7 @@ def _worker(item):
 
 def run(ctx):
     from ..run import merge
-    allh = list(fam_a()) + list(fam_b()) + list(fam_c(ctx.tier)) + list(fam_t()) + list(fam_d())
+    allh = list(fam_a()) + list(fam_b()) + list(fam_c(ctx.tier)) + list(fam_t()) + list(fam_d()) + list(fam_e())
     items = []
     step = 40
     for famname in sorted(set(f for f, _h in allh)):
